@@ -13,7 +13,6 @@ CHECK = {
         {"fn": P + "vC13_history5", "tiers": ("thorough",), "cases": {"prefix": [0]}},
         {"fn": P + "vC13_suffix3", "tiers": ("thorough",), "cases": {"prefix": SHAPES}},
         {"fn": P + "vC13_nobuffer"},
-        {"fn": P + "vC13_dbg", "tiers": ("x",)},
     ],
     "replace": [{"file": "actor/pools.go", "old": "const contextPoolSize = 8192", "new": "const contextPoolSize = 2"}],
     # no loop-feasibility queries (each costs ~0.5 s here): loops run to their concrete bound, or to the stated bound whose
@@ -21,6 +20,7 @@ CHECK = {
     "opts": {"unwind": 12, "feas_from_iter": 1000, "select_precise": True,
              "loop_bounds": {"(*" + P + "PID).unstashAll": 5}},
     "timeout_ms": {"quick": 240000, "thorough": 1800000},
-    "explanation": "TODO",
-    "bounds": {},
+    "explanation": 'PID.stash/unstash/unstashAll (through ReceiveContext.Stash/Unstash/UnstashAll), cloneContext, getContext and the context pool, PID.doReceive and the real UnboundedMailbox (main mailbox and stash buffer: Enqueue/Dequeue/IsEmpty) are executed symbolically on one actor. A history is a sequence of decisions {a ghost-tagged message arrives (real doReceive), the actor takes its next message and stashes it, takes and handles it, calls Unstash, calls UnstashAll}; message sender (none / two actors) and Ask-ness (response channel, request id) are symbolic. After every take and at the end (both real queues drained) the delivered contexts are compared with two reference FIFO queues: same tags in the same order, each with its original message, sender, response channel, request id, self. A separate entry shows that without a stash buffer (no state, or state without box) every operation reports ErrStashBufferNotSet and delivers nothing. Nothing is substituted; counterexamples replay natively. The actor is inside its own turn (schedState = Processing), so doReceive does not call the dispatcher.',
+    "bounds": {'quick': {'from a fresh actor': 'every history of 4 decisions (+ every history of 3 decisions with the shared context pool hitting/missing arbitrarily)', 'from 6 prepared states (case split; main mailbox 0..3, stash 0..3 messages, used sentinels, hot pool)': 'every continuation of 2 decisions'}, 'thorough': {'from a fresh actor': 'every history of 5 decisions', 'from the 6 prepared states': 'every continuation of 3 decisions'}, 'shrunk constant': 'contextPoolSize 8192 -> 2 (pool of 2 pre-warmed contexts; reuse is reached within the bound)', 'unstashAll loop': '5 iterations (unwinding assertion proven)'},
+    "assumptions": ['the context pool is used by this actor only (select{case <-pool: default:} takes the case exactly when enabled), except in entry vC13_history3 where every pool access may hit or miss', "one actor, sequential: concurrent producers on the mailboxes are C04's subject"],
 }
